@@ -89,7 +89,7 @@ def run_case(case, acc):
 
 # hand-written implementations over one integer per sign class of hint
 # (non-negative, sign-crossing, all-negative of several widths) and a Boolean
-HAND_HINTS = [(0, 2), (-2, 1), (-3, -1), (-4, -1), (-6, -2), (-1, 5), (3, 4)]
+HAND_HINTS = [(0, 2), (-2, 1), (-3, -1), (-4, -1), (-6, -2), (-1, 2), (3, 4)]
 # (initial condition, action); {lo}/{hi} are the hint's bounds
 HAND_ACTIONS = [
     ("y = {hi} /\\ b", "(y' = y) /\\ (b' <=> ~ b)"),
@@ -128,6 +128,9 @@ def run_hand(case, acc):
     mealy = "x'" in aut.support(aut.action['impl'])
     st = steps.AutomatonStepper(aut)
     n = enabled = disabled = 0
+    by_state = collections.defaultdict(set)
+    for r in A:
+        by_state[r[:3] + ((r[3],) if mealy else ())].add((r[4], r[5]))
     for x in rng:
         for y in rng:
             for b in (False, True):
@@ -136,9 +139,8 @@ def run_hand(case, acc):
                     state = dict(x=x, y=y, b=b)
                     if mealy:
                         state["x'"] = xp
-                    exp = {(r[4], r[5]) for r in A
-                           if r[:3] == (x, y, b) and
-                           (not mealy or r[3] == xp)}
+                    exp = by_state.get((x, y, b) + ((xp,) if mealy else ()),
+                                       set())
                     try:
                         r = st.step(state)
                     except ValueError:
